@@ -164,7 +164,11 @@ def modelTal (line : String) : String :=
   match natField fs "my", natField fs "term", natField fs "lli", natField fs "llt", natField fs "init",
         natField fs "add", natField fs "rm", lookup fs "pids", (lookup fs "rs").bind parseResps with
   | some my, some term, some lli, some llt, some k, some a, some r, some pids, some (_, specs) =>
-    let m := talMemb my k a r
+    let m0 := talMemb my k a r
+    let chs : List Change := match lookup fs "ch" with
+      | some c => if c == "-" || c.isEmpty then [] else (c.splitOn "/").filterMap parseChange
+      | none => []
+    let m := m0.applyAll chs
     let transport := if pids == "x" then none else some (pids.toNat?.getD 0, specs.map (specToResp term))
     let o := broadcastOutcome m term lli llt transport
     let sent := if m.isSingleNodeCluster || m.voters.isEmpty then 0 else 1
@@ -211,6 +215,12 @@ def mkCluster (hs : List Head) : Cluster :=
       | none => default
     flight := fun _ => none, leaders := [], grants := [], fv := fun _ _ => none }
 
+/-- persist-order tag of one handled request: since c4109f0 every change of term / vote is saved by the mutator that
+    makes it, i.e. before the handler hands the reply over: `pb` when the hard state changed, `pn` when it did not.
+    (`pa` — a save after the reply — is what the harness reports when the code replies first.) -/
+def persistTag (n n' : Node) : String :=
+  if n.term == n'.term && n.vf == n'.vf then "pn" else "pb"
+
 def roleCh : Role → String
   | .follower => "f" | .candidate => "c" | .leader => "L" | .learner => "l"
 
@@ -244,11 +254,12 @@ def execOp (ids : List Nat) (e : Exec) (op : String) : String × Exec :=
       let (res, e1) : String × Exec :=
         if name == "vr" then
           let r : VoteReq := ⟨argN 2, argN 3, argN 4, argN 5⟩
-          let (_, resp) := e.c.handleVoteReq me r
-          (s!"g{if resp.granted then 1 else 0}.t{resp.term}", (e.step (.voteReq me r)).tag (voteReqTag node r))
+          let (c', resp) := e.c.handleVoteReq me r
+          (s!"g{if resp.granted then 1 else 0}.t{resp.term}.{persistTag node (c'.proc me).node}",
+            (e.step (.voteReq me r)).tag (voteReqTag node r))
         else if name == "ae" then
-          let (_, o) := onAppendEntries node (argN 2) (argN 3)
-          let s := match o with | .accepted => "ok" | .higherTerm t => s!"ht{t}"
+          let (n', o) := onAppendEntries node (argN 2) (argN 3)
+          let s := (match o with | .accepted => "ok" | .higherTerm t => s!"ht{t}") ++ "." ++ persistTag node n'
           (s, (e.step (.appendEntries me (argN 2) (argN 3))).tag (aeTag node (argN 2)))
         else if name == "hb" then
           match ids[argN 1]? with
@@ -257,8 +268,8 @@ def execOp (ids : List Nat) (e : Exec) (op : String) : String × Exec :=
             let ln := (e.c.proc l).node
             if l == me || !(e.c.proc l).up || ln.role != .leader then ("nl", e)
             else
-              let (_, o) := onAppendEntries node ln.term l
-              let s := match o with | .accepted => "ok" | .higherTerm t => s!"ht{t}"
+              let (n', o) := onAppendEntries node ln.term l
+              let s := (match o with | .accepted => "ok" | .higherTerm t => s!"ht{t}") ++ "." ++ persistTag node n'
               (s, (e.step (.heartbeat l me)).tag ("hb-" ++ aeTag node ln.term))
         else if name == "to" then
           match node.role with
@@ -282,8 +293,9 @@ def execOp (ids : List Nat) (e : Exec) (op : String) : String × Exec :=
                     if willSend && !xerr && pj != me && (ex.c.proc pj).up && voters.contains pj && !done.contains pj then
                       let (_, resp) := ex.c.handleVoteReq pj (ex.c.requestOf me)
                       let ex1 := ex.step (.deliver me pj)
+                      let ptag := persistTag (ex.c.proc pj).node (ex1.c.proc pj).node
                       let (tl, ex2) := ex1.tail pj
-                      (extra ++ s!".r{j}=g{if resp.granted then 1 else 0}t{resp.term}({tl})", ex2, pj :: done)
+                      (extra ++ s!".r{j}=g{if resp.granted then 1 else 0}t{resp.term}{ptag}({tl})", ex2, pj :: done)
                     else (extra ++ s!".r{j}=x", ex.step (.scripted me .err), done)
                   | none => (extra ++ s!".r{j}=x", ex.step (.scripted me .err), done)
                 | other => (extra, ex.step (.scripted me (specToResp t1 other)), done)
@@ -374,6 +386,7 @@ inductive Ev where
   | pub (node : Nat) (v : Pub)
   | skip (node voters : Nat)             -- election won without sending a request, with that many other voters
   | mark (node : Nat) (what : String)    -- crash / restart / sd / ae (attribution of a failure to a trigger)
+  | lateSave (node : Nat) (granted : Bool)  -- the hard state was saved after the reply had been handed over
 deriving Repr
 
 /-- the `.r<j>=g<b>t<term>(<tail of j>)` pieces of an election result -/
@@ -390,7 +403,8 @@ def parseExtras (ids : List Nat) (cand eterm : Nat) (segs : List String) : Optio
           match ((tl.dropEnd 1).toString).splitOn "/" with
           | [rt, vf, pubs] => do
             let t ← parseTail rt vf pubs
-            some (acc ++ (if granted then [Ev.vote pj cand eterm] else []) ++ [Ev.term pj t.term]
+            some (acc ++ (if granted then [Ev.vote pj cand eterm] else [])
+                      ++ (if gt.endsWith "pa" then [Ev.lateSave pj granted] else []) ++ [Ev.term pj t.term]
                       ++ t.pubs.map (Ev.pub pj))
           | _ => none
         | _ => none
@@ -417,11 +431,14 @@ def opEvents (ids : List Nat) (op out : String) : Option (List Ev) :=
         let tailEvs := [Ev.term me t.term] ++ t.pubs.map (Ev.pub me)
         if name == "vr" then
           let g := res.startsWith "g1"
-          some ((if g then [Ev.vote me (argN 3) (argN 2)] else []) ++ tailEvs)
+          some ((if g then [Ev.vote me (argN 3) (argN 2)] else [])
+                ++ (if res.endsWith ".pa" then [Ev.lateSave me g] else []) ++ tailEvs)
         else if name == "ae" then
-          some ([Ev.claim (argN 3) (argN 2), Ev.mark me "ae"] ++ tailEvs)
+          some ([Ev.claim (argN 3) (argN 2), Ev.mark me "ae"]
+                ++ (if res.endsWith ".pa" then [Ev.lateSave me false] else []) ++ tailEvs)
         else if name == "hb" then
-          some ((if res == "nl" then [] else [Ev.mark me "ae"]) ++ tailEvs)
+          some ((if res == "nl" then [] else [Ev.mark me "ae"])
+                ++ (if res.endsWith ".pa" then [Ev.lateSave me false] else []) ++ tailEvs)
         else if name == "to" then
           if res.startsWith "el." then
             match res.splitOn ".r" with
@@ -485,8 +502,16 @@ def firstDoubleVote (vs : List (Nat × Nat × Nat)) : Option (Nat × Nat) :=
 
 /-! ### monitors -/
 
+/-- C02, crash point "after the reply, before the save": a reply must never leave the node before the term / vote
+    it reveals is on stable storage (a crash right there + restart would let the node vote again in that term) -/
+def persistedBeforeReplyOK (evs : List Ev) : Bool :=
+  !(evs.any fun | .lateSave _ _ => true | _ => false)
+
 def monC02 (_learners : List Nat) (evs : List Ev) : String :=
-  if !votesOK (votesOf evs) then
+  if !persistedBeforeReplyOK evs then
+    (if evs.any (fun | .lateSave _ g => g | _ => false) then "bad grant-replied-before-persist"
+     else "bad reply-before-persist")
+  else if !votesOK (votesOf evs) then
     match firstDoubleVote (votesOf evs) with
     | some (n, t) =>
       -- open finding F32: the vote was overwritten by the AppendEntries of a leader, whose request was then granted
